@@ -2161,6 +2161,33 @@ impl ConfigState {
             );
         }
 
+        // a certificate kept under the same fingerprint but whose key, chain, TLS
+        // versions or overriding names changed: AddCertificate skips a known
+        // fingerprint, so it has to be removed first
+        for &(address, fingerprint) in my_certificates.intersection(&their_certificates) {
+            let mine = self.certificates.get(&address).and_then(|c| c.get(fingerprint));
+            let theirs = other.certificates.get(&address).and_then(|c| c.get(fingerprint));
+            if let (Some(mine), Some(theirs)) = (mine, theirs) {
+                if mine != theirs {
+                    v.push(
+                        RequestType::RemoveCertificate(RemoveCertificate {
+                            address: SocketAddress::from(address),
+                            fingerprint: fingerprint.to_string(),
+                        })
+                        .into(),
+                    );
+                    v.push(
+                        RequestType::AddCertificate(AddCertificate {
+                            address: SocketAddress::from(address),
+                            certificate: theirs.clone(),
+                            expired_at: None,
+                        })
+                        .into(),
+                    );
+                }
+            }
+        }
+
         for &(address, fingerprint) in added_certificates {
             if let Some(certificate_and_key) = other
                 .certificates
